@@ -52,7 +52,7 @@ def serialize : SerVal → Res Value
   | .f64 f => .ok (.float f)
   | .char c => .ok (.str [c])
   | .str s => .ok (.str s)
-  | .bytes bs => .ok (.vec (bs.map (fun b => .int (b : Int))))
+  | .bytes bs => .ok (.vec (bs.map (fun (b : Nat) => Value.int (Int.ofNat b))))
   | .none => .ok .none
   | .some v => serialize v
   | .unit => .ok .none
